@@ -18,7 +18,12 @@ EXTRA = {"c01-b-sob-reach": ["C04"], "c02-a-repeat-step-once": ["C16"], "c02-b-l
          "c06-d-bk-translate-fastpath": ["C14"], "c08-d-skip-closure-inlined": ["C12", "C02"], "c09-c-coeff-overwritten": ["C04"], "c09-d-distance-fastpath": ["C04"],
          "c10-c-own-names-case": ["C11"], "c10-d-hoist-named-registers-only": ["C01"], "c11-d-compiled-flag-on-link-base": ["C03"], "c12-c-const-term-unscaled": ["C05", "C03"],
          "c13-c-include-parsed-under-relative-name": ["C17"], "c14-d-ascii-chunk-memo": ["C06"], "c15-c-angle-code-cached": ["C16"], "c15-d-caret-r-no-percent": ["C05"],
-         "c16-c-bracket-hides-dot": ["C05"], "c16-d-once-path-not-normalised": ["C18"], "c18-c-parse-lru-cache": ["C08"], "c19-c-sections-per-run": [], "c06-c-ascii-size-hint-chars": ["C02"]}
+         "c16-c-bracket-hides-dot": ["C05"], "c16-d-once-path-not-normalised": ["C18"], "c18-c-parse-lru-cache": ["C08"], "c19-c-sections-per-run": [], "c06-c-ascii-size-hint-chars": ["C02"],
+         # third wave
+         "c11-f-extern-map-class": ["C18"], "c14-e-include-parse-cache": ["C18"], "c14-f-encoder-once": ["C18", "C05"], "c13-f-pulse-table-once": ["C18"], "c09-f-once-module-set": ["C18", "C16"],
+         "c03-e-numeric-export-early": ["C11"], "c06-f-repeat-multiply": ["C16", "C02"], "c06-e-even-offset-parity": ["C02"], "c02-e-include-pending-size0": ["C16"], "c02-f-ascii-size-chars": ["C06"],
+         "c08-f-wno-mutes-error": ["C07"], "c15-f-neg-rad50-literal": ["C05"], "c05-f-charlit-first-byte": ["C14"], "c12-f-include-presettle": ["C02"], "c10-f-push-fastpath": ["C01"],
+         "c04-e-shared-stub-state": ["C01"], "c19-f-fileno-late": ["C11"], "c03-f-extern-all-forgotten": ["C11"], "c08-e-repeat-end-reraise": ["C16"], "c12-e-length-no-try": ["C16"]}
 
 
 def sh(cmd, **kw):
@@ -36,16 +41,18 @@ def main():
     for s in seeds:
         meta_p = os.path.join(SEEDED, s, "meta.json")
         meta = json.load(open(meta_p))
+        if meta.get("retired"):
+            continue
         checks = ALL if allchecks else sorted(set([meta["property"]] + EXTRA.get(s, [])))
         a = sh("git -C /repo apply %s" % os.path.join(SEEDED, s, "patch.diff"))
         if a.returncode != 0:
             print(s, "PATCH DOES NOT APPLY", a.stdout[:200])
             continue
-        row = matrix.get(s, {})
+        row = {} if "--fresh" in sys.argv else matrix.get(s, {})
         try:
             for c in checks:
                 t0 = time.time()
-                p = sh("cd %s && PDPMC_OUT=/dev/shm/seedmatrix-out PYTHONHASHSEED=0 /venv/bin/python -m pdpmc %s --tier quick" % (VERIF, c))
+                p = sh("cd %s && PDPMC_OUT=/dev/shm/seedmatrix-out PDPMC_WORKERS=%s PYTHONHASHSEED=0 /venv/bin/python -m pdpmc %s --tier quick" % (VERIF, os.environ.get("MATRIX_WORKERS", "16"), c))
                 viol = [l for l in p.stdout.splitlines() if l.startswith("VIOLATION")]
                 sigs = [l.strip()[len("signature: "):] for l in p.stdout.splitlines() if l.strip().startswith("signature:")]
                 row[c] = {"exit": p.returncode, "violations": len(viol), "signatures": sigs[:3], "wall_s": round(time.time() - t0, 1), "repo_head": head}
